@@ -113,7 +113,7 @@ theorem renameOf_of_mem {m : List (Name × Name)} (hnd : (m.map (·.1)).Nodup) {
 
 /-! ## concrete valid complexes used by the `example`s below -/
 
-theorem inv_emptyC : Inv emptyC :=
+theorem rel_inv_emptyC : Inv emptyC :=
   ⟨List.Pairwise.nil, List.nodup_nil, by simp [emptyC], by simp [emptyC], by simp [emptyC]⟩
 
 /-- points `u1`, `u2` and the edge `u3` on them -/
@@ -122,7 +122,7 @@ def chainC : C :=
 
 theorem inv_chainC : Inv chainC := by
   have h1 : Inv ({ simps := [⟨.u 1, 0, [], [.u 1]⟩], seq := 0 } : C) :=
-    addSimplex_ok_inv (fs := []) (id := .u 1) inv_emptyC (Or.inl rfl) rfl
+    addSimplex_ok_inv (fs := []) (id := .u 1) rel_inv_emptyC (Or.inl rfl) rfl
   have h2 : Inv ({ simps := [⟨.u 1, 0, [], [.u 1]⟩, ⟨.u 2, 0, [], [.u 2]⟩], seq := 0 } : C) :=
     addSimplex_ok_inv (fs := []) (id := .u 2) h1 (Or.inl rfl) rfl
   exact addSimplex_ok_inv (fs := [.u 1, .u 2]) (id := .u 3) h2 (Or.inr rfl) rfl
@@ -135,7 +135,7 @@ def otherC : C :=
 
 theorem inv_otherC : Inv otherC := by
   have h1 : Inv ({ simps := [⟨.u 2, 0, [], [.u 2]⟩], seq := 0 } : C) :=
-    addSimplex_ok_inv (fs := []) (id := .u 2) inv_emptyC (Or.inl rfl) rfl
+    addSimplex_ok_inv (fs := []) (id := .u 2) rel_inv_emptyC (Or.inl rfl) rfl
   have h2 : Inv ({ simps := [⟨.u 2, 0, [], [.u 2]⟩,
       ⟨.arrow (.u 2) 0 1, 0, [], [.arrow (.u 2) 0 1]⟩], seq := 0 } : C) :=
     addSimplex_ok_inv (fs := []) (id := .arrow (.u 2) 0 1) h1 (Or.inl rfl) rfl
